@@ -749,6 +749,47 @@ static void ChildInvocation(const JV& step) {
   finish(code, msg);
 }
 
+// Runs in the forked child: ninja -t clean / cleandead on the real Cleaner.
+static void ChildClean(const JV& step) {
+  State state;
+  ManifestParserOptions popts;
+  ManifestParser parser(&state, &g_disk, popts);
+  string err;
+  if (!parser.Load("build.ninja", &err)) {
+    Emit("{\"e\":\"CleanDone\",\"status\":-1,\"count\":0,\"msg\":" + JEsc(err) + "}");
+    _exit(0);
+  }
+  BuildConfig config;
+  config.verbosity = BuildConfig::QUIET;
+  config.dry_run = step["n"].boolean();
+  Cleaner cleaner(&state, config, &g_disk);
+  string mode = step["mode"].str();
+  int status = 0;
+  if (mode == "all") {
+    status = cleaner.CleanAll(step["g"].boolean());
+  } else if (mode == "targets") {
+    vector<string> names = step["args"].strs();
+    vector<char*> argv;
+    for (auto& n : names) argv.push_back(const_cast<char*>(n.c_str()));
+    status = cleaner.CleanTargets((int)argv.size(), argv.data());
+  } else if (mode == "rules") {
+    vector<string> names = step["args"].strs();
+    vector<char*> argv;
+    for (auto& n : names) argv.push_back(const_cast<char*>(n.c_str()));
+    status = cleaner.CleanRules((int)argv.size(), argv.data());
+  } else if (mode == "dead") {
+    BuildLog build_log;
+    DepsLog deps_log;
+    build_log.Load(g_scratch + "/.ninja_log", &err);
+    err.clear();
+    deps_log.Load(g_scratch + "/.ninja_deps", &state, &err);
+    status = cleaner.CleanDead(build_log.entries());
+  }
+  Emit("{\"e\":\"CleanDone\",\"status\":" + to_string(status) + ",\"count\":" + to_string(cleaner.cleaned_files_count()) + ",\"msg\":\"\"}");
+  fflush(NULL);
+  _exit(0);
+}
+
 // Child that re-reads both logs from disk and reports their meaning.
 static void ChildDumpLogs() {
   State state;
@@ -954,6 +995,21 @@ static void RunOnce(Scenario sc /* by value: versions change */, long run_no, in
         Emit("{\"e\":\"Exit\",\"code\":" + to_string(r.code) + ",\"msg\":" + JEsc(r.msg) + ",\"mc\":" + JEsc(MsgClass(r.msg)) + ",\"cyc\":" + CyclePath(r.msg) + ",\"fifo\":" + to_string(left) +
              ",\"tree\":" + g_disk.Tree() + ",\"logs\":" + logs + "}");
       }
+      continue;
+    }
+    if (op == "clean") {
+      string pre = g_disk.Tree();
+      set<string> before;
+      for (auto& f : g_disk.files) before.insert(f.first);
+      ChildResult r = RunChild([&] { ChildClean(step); });
+      vector<string> removed;
+      for (auto& b : before) if (!g_disk.files.count(b)) removed.push_back(b);
+      string done = r.events.empty() ? "{\"e\":\"CleanDone\",\"status\":-2,\"count\":0,\"msg\":\"crashed\"}" : r.events.back();
+      ChildResult lg = RunChild([&] { ChildDumpLogs(); });
+      string logs = lg.events.empty() ? "{\"e\":\"Logs\",\"blog\":[],\"dlog\":[],\"st\":[-1,-1],\"warn\":\"dump failed\"}" : lg.events[0];
+      Emit("{\"e\":\"Clean\",\"mode\":" + JEsc(step["mode"].str()) + ",\"args\":" + JStrs(step["args"].strs()) + ",\"gflag\":" + (step["g"].boolean() ? "true" : "false") +
+           ",\"n\":" + (step["n"].boolean() ? "true" : "false") + ",\"pre\":" + pre + ",\"removed\":" + JStrs(removed) + ",\"done\":" + done +
+           ",\"logs\":" + logs + ",\"g\":" + GraphJson(sc) + ",\"tree\":" + g_disk.Tree() + "}");
       continue;
     }
     // Environment actions between invocations
